@@ -238,6 +238,7 @@ def tree_tie(ctx, differ):
     from vlib import c15_tree
     from vyper.codegen.ir_node import IRnode
     from vyper.compiler.settings import Settings, anchor_settings
+    from vyper.exceptions import CompilerPanic
     rnd = ctx.rng("trees")
     want = 500 if ctx.tier != "thorough" else 6000
     cases = []
@@ -268,9 +269,38 @@ def tree_tie(ctx, differ):
     imports = ("From Verif Require Import Base.PyInt C15.Syntax C15.GenUtils C15.Optimizer C15.OptTree.\n"
                "Open Scope string_scope.\n")
     exprs = [f"show_opt (optimize {'true' if ev == 'cancun' else 'false'} {c})" for (_t, ev, c, _s) in cases]
+    # direct tie of usyms against IRnode.unique_symbols (plain trees and under `deploy`, which skips its 2nd argument)
+    sym_cases = []
+    for (t, ev, _c, _s) in cases[:(150 if ctx.tier != "thorough" else 1500)]:
+        for tt in (t, ["deploy", ["seq", ["unique_symbol", rnd.choice(c15_tree.SYMS)], 0], ["seq", t, ["stop"]],
+                       rnd.choice([0, ["seq", ["unique_symbol", rnd.choice(c15_tree.SYMS)], 0]])]):
+            try:
+                n2 = IRnode.from_list(tt)
+                c2 = c15_tree.coq_of_node(n2)
+            except Exception:  # noqa
+                continue
+            try:
+                real = ",".join(sorted(n2.unique_symbols))
+            except CompilerPanic:
+                real = "PANIC"
+            sym_cases.append((tt, c2, real))
+    nopt = len(exprs)
+    exprs += [f"show_syms (usyms {c2})" for (_tt, c2, _r) in sym_cases]
     nsh = 3 if ctx.tier != "thorough" else 6
     outs = coqrun.eval_cases(imports, exprs, "c15tree", shard=(len(exprs) + nsh - 1) // nsh,
                              timeout=220 if ctx.tier != "thorough" else 1200)
+    sym_out = {"PANIC": 0, "set": 0, "nonempty": 0}
+    for (tt, _c2, real), o in zip(sym_cases, outs[nopt:]):
+        m = o.strip('"')
+        m = m if m == "PANIC" else ",".join(sorted(x for x in m.split(",") if x))
+        sym_out["PANIC" if real == "PANIC" else "set"] += 1
+        sym_out["nonempty"] += 1 if real not in ("", "PANIC") else 0
+        if m != real:
+            ctx.violation("correspondence-broken", "the Coq model of IRnode.unique_symbols (OptTree.usyms) disagrees with "
+                          "vyper/codegen/ir_node.py", {"ir": str(tt)[:600], "real": real, "model": m})
+            break
+    ctx.corr["usyms_cases"] = sym_out
+    outs = outs[:nopt]
     changed, merged, outcomes, mism, declined = 0, 0, {}, [], 0
     for (t, ev, _c, s0), o in zip(cases, outs):
         m = o.strip('"')
@@ -281,7 +311,7 @@ def tree_tie(ctx, differ):
             continue
         if r != s0:
             changed += 1
-        k = r if r in ("STATIC", "ASSERT") or r.startswith("EXC") else "tree"
+        k = r if r in ("STATIC", "ASSERT", "PANIC") or r.startswith("EXC") else "tree"
         outcomes[k] = outcomes.get(k, 0) + 1
         for w in ("calldatacopy", "mcopy", "dloadbytes"):
             if r.count(w) > s0.count(w):
@@ -604,7 +634,7 @@ STATIC_FILES = ["C15/Syntax.v", "C15/WordFacts.v", "C15/Bytes.v", "C15/Peephole.
                 "C15/JumpSem.v", "C15/JumpSound.v", "C15/JumpSound2.v", "C15/JumpSound3.v", "C15/PropsPeephole.v"]
 # regenerated model first: any change in /repo's translated code re-checks every proof after it
 GEN_FILES = ["C15/GenUtils.v", "C15/Optimizer.v", "C15/OptTree.v", "C15/FoldSound.v", "C15/PropsFold.v", "C15/OptSound.v",
-             "C15/OptTreeSound.v", "C15/MergeSound.v", "C15/MemInst.v", "C15/PropsOpt.v",
+             "C15/OptTreeSound.v", "C15/MergeSound.v", "C15/MemInst.v", "C15/SymSound.v", "C15/PropsOpt.v",
              "C15/Lower.v", "C15/LowerSound.v", "C15/PropsLower.v"]
 
 
